@@ -192,3 +192,13 @@ Theorem C08_csr0_fields_recoverable :
   (v / 2 ^ 16) mod 256 = mx mod 256 /\ (v / 2 ^ 24) mod 256 = mn mod 256.
 Proof. exact csr0_fields_recoverable. Qed.
 Print Assumptions C08_csr0_fields_recoverable.
+
+(* 12. Full loop-count statement for configurations with more than one temporal dim is REFUTED (F25):
+       loop_bound_alu = first bound (3) while the stream makes 15 steps. C08_loop_count_alu is the
+       proved partial statement (one temporal dim, as in the default snax_alu). *)
+Theorem C08_alu_loop_bound_multi_dim_refuted :
+  let cfg := [mkStreamer [FNormal; FNormal] [4] []] in
+  let op := mkSop [mkPat [3; 5] [32; 96] [8]] [false] in
+  exists l, alu_vals cfg op = Some l /\ In (TKern LoopBoundAlu, VConst 3) l /\ steps [3; 5] [32; 96] = 15.
+Proof. exact alu_loop_bound_multi_dim_refuted. Qed.
+Print Assumptions C08_alu_loop_bound_multi_dim_refuted.
